@@ -613,3 +613,22 @@ Proof.
     destruct (client_unauth_l c e Ha) as [H1 H2]. rewrite H1. cbn [is_nil]. rewrite andb_true_r.
     destruct H2 as [H2|H2]; rewrite H2; [reflexivity | rewrite orb_true_r; reflexivity].
 Qed.
+
+(* the guard excludes exactly the shape of the recorded finding (tag 1 of the correspondence check) *)
+Lemma recover_shadow_witness : is_recover_shadow recover_call = true.
+Proof. vm_compute. reflexivity. Qed.
+
+Lemma guard_excludes_shadow c : client_guard c -> is_recover_shadow c = false.
+Proof.
+  intros (_ & _ & _ & _ & Gpath & _). cbv zeta in Gpath. unfold is_recover_shadow.
+  destruct (String.eqb (cc_name c) "PinPath") eqn:En; [|reflexivity]. cbn [andb].
+  apply String.eqb_eq in En.
+  destruct Gpath as (p & Hp & kt & rest & Hkt & Ht & Hne & Hl & Hr); [rewrite En; left; reflexivity|].
+  specialize (Hr eq_refl).
+  rewrite Hp, Ht. destruct (kt_facts kt Hkt) as (_ & _ & _ & _ & Hks).
+  unfold segments. cbn [append split_on Ascii.eqb Bool.eqb slash].
+  change (kt ++ "/" ++ rest)%string with (kt ++ String slash rest)%string. rewrite (split_on_app _ _ _ _ Hks).
+  pose proof (join_segments rest) as Hj.
+  destruct (split_on slash (fun x => x) rest) as [|r [|r2 l]]; try reflexivity.
+  cbn in Hj. subst r. cbn [String.eqb]. apply String.eqb_neq in Hr. rewrite Hr. apply andb_false_r.
+Qed.
